@@ -24,10 +24,39 @@ def mk_entry(rnd, t, maxHead, maxProc, rich=True):
                 times=rnd.choice([0, 1, 2, 3, 3, 4, 7]), series=series, total=total)
 
 
+def gen_fullrelief(rnd, idn):
+    """Directed family: an overloaded shard with settled targets, a second shard that is nearly full
+    (in the dimension that matters) and a third one with room, in any order."""
+    maxHead = rnd.choice([0, 0, 10, 10])
+    maxProc = rnd.choice([20, 30])
+    dim = 'proc' if maxHead == 0 or rnd.random() < 0.4 else 'head'
+
+    def ent(t, series, total):
+        return dict(t=t, state='', health='up', times=rnd.choice([3, 4, 7]), series=series, total=total)
+    if dim == 'proc':
+        a = [ent(1, rnd.choice([2, 3]), maxProc // 2 + rnd.choice([0, 1, 2])), ent(2, rnd.choice([1, 2]), maxProc // 2 + rnd.choice([0, 3]))]
+        b = [ent(3, rnd.choice([1, 2]), maxProc - rnd.choice([3, 5, 6]))]
+    else:
+        a = [ent(1, 6, rnd.choice([6, 7])), ent(2, rnd.choice([5, 6, 8]), 8)]
+        b = [ent(3, rnd.choice([7, 8, 9]), 9)]
+    roles = [a, b, []]
+    rnd.shuffle(roles)
+    shards = []
+    for rep in roles:
+        shards.append(dict(mode='ok', report=rep, head=sum(e['series'] for e in rep) + (rnd.choice([0, 1]) if rep else 0), proc=sum(e['total'] for e in rep),
+                           idle='none' if rep else rnd.choice(['fresh', 'expired']), postFail=False))
+    explore = [dict(t=e['t'], state='', health='up', times=0, series=e['series'], total=e['total']) for e in a + b if rnd.random() < 0.7]
+    return dict(id=idn, fam='fullrelief', opts=dict(maxHead=maxHead, maxProc=maxProc, minShard=rnd.choice([0, 1, 3]), maxShard=rnd.choice([3, 4, 9]),
+                                                    maxIdle=rnd.choice([0, 1]), noAlleviate=False),
+                shards=shards, active=[1, 2, 3], explore=explore, failScale=0)
+
+
 def gen_input(rnd, idn, maxN=3, maxK=3):
     """One cycle input.  A family biases the draw towards one mechanism (the plain family is the
     unbiased mixture); every family still randomises everything else."""
-    fam = rnd.choice(['plain', 'plain', 'scaledown', 'scaledown', 'relief', 'oversized', 'handover', 'unsynced'])
+    fam = rnd.choice(['plain', 'plain', 'scaledown', 'scaledown', 'relief', 'oversized', 'handover', 'unsynced', 'fullrelief'])
+    if fam == 'fullrelief' and maxN >= 3 and maxK >= 3:
+        return gen_fullrelief(rnd, idn)
     n = min(maxN, rnd.choice([1, 2, 2, 3, 3, 3] if maxN == 3 else [1, 2, 3, 3, 4, 4]))
     if fam in ('scaledown', 'unsynced', 'relief'):
         n = min(maxN, rnd.choice([2, 3, 3, maxN]))
